@@ -36,7 +36,13 @@ FP(op) ==
     [] op = "build-basic"     -> [r |-> {}, w |-> {}, lock |-> {}]                      \* prototypes carry no state
     [] op = "build-bind"      -> [r |-> {"typesystem"}, w |-> {}, lock |-> {}]
     [] op = "wrap-explicit"   -> [r |-> {"typesystem"}, w |-> {}, lock |-> {}]
-    [] op = "proto-inferred"  -> [r |-> {}, w |-> {"infercache"}, lock |-> {"infercache"}]   \* infer.go inferMu
+    \* Inferred schema types live in ONE process-wide type system ("inferred-universe").  A bind of a type that was inferred
+    \* before finds it in the cache (infer.go inferMu) and then USES it: types resolve the types they refer to lazily, by
+    \* name, in that universe, every time they are asked.  The first bind of a new type (infer-first) ADDS to the universe.
+    \* Both touch the universe under its lock (schema.TypeSystem.mu) -- since fix 575120f; before it the reads were not
+    \* locked, NoConflict failed for the mix (infer-first || proto-inferred) and the race detector said so on the code.
+    [] op = "proto-inferred"  -> [r |-> {"inferred-universe"}, w |-> {"infercache"}, lock |-> {"infercache", "inferred-universe"}]
+    [] op = "infer-first"     -> [r |-> {}, w |-> {"infercache", "inferred-universe"}, lock |-> {"infercache", "inferred-universe"}]
     [] op = "struct-lookup"   -> [r |-> {"node.bind", "typesystem"}, w |-> {}, lock |-> {}]
     [] op = "read-gen"        -> [r |-> {"node.gen"}, w |-> {}, lock |-> {}]            \* generated nodes carry their type in code
     [] op = "read-gen-repr"   -> [r |-> {"node.gen"}, w |-> {}, lock |-> {}]
